@@ -6,6 +6,44 @@ import lean
 import engines.C04_lib as L
 
 
+# ------------------------------------------------------------------ effective options (defaults)
+
+def _default_k_pattern(x):
+    return 2 if x < 12 else 3 if x < 24 else 4 if x < 40 else 5
+
+
+def _default_k_rdm(x):
+    return 2 if x < 6 else 3 if x < 12 else 4 if x < 20 else 5
+
+
+def eff(case):
+    """the options a routine works with after its documented defaults (`None`): the defaults of
+    inference_util at the expected number (1 - 1/e) n of distinct groups in a bootstrap sample;
+    bootstrap_crossval never splits a single RDM group; random test sets hold floor(n / k) groups.
+    (independent plain transcription; the model computes the same through the regenerated leaves
+    and returns its values, which are compared)"""
+    ctx = L.Ctx(case)
+    gr, gp = len(set(ctx.rdesc)), len(set(ctx.pdesc))
+    f = 1 - 1 / math.e
+    r = case['routine']
+    out = {}
+    if r in ('bcv', 'dual'):
+        kr, kp = case.get('kr'), case.get('kp')
+        if kp is None:
+            kp = _default_k_pattern(f * gp)
+        if kr is None:
+            kr = 1 if (r == 'bcv' and gr == 1) else _default_k_rdm(f * gr)
+        out.update(kr=kr, kp=kp)
+    if r == 'random':
+        nr, npat = case.get('nr'), case.get('np')
+        if npat is None:
+            npat = gp // _default_k_pattern(f * gp)
+        if nr is None:
+            nr = gr // _default_k_rdm(f * gr)
+        out.update(nr=nr, np=npat)
+    return out
+
+
 # ------------------------------------------------------------------ recorded draws -> structure
 
 def split_log(case, log):
@@ -52,9 +90,9 @@ def structured_draws(case, log, ctx):
     for s in samples:
         d = draw_of(case, s)
         if r == 'bcv':
-            d['reps'] = [cv_draw(ctx, c) for c in chunks(s['sh'], 1 + case['kr'])]
+            d['reps'] = [cv_draw(ctx, c) for c in chunks(s['sh'], 1 + eff(case)['kr'])]
         elif r == 'dual':
-            per = 1 + case['kr']
+            per = 1 + eff(case)['kr']
             d['reps'] = [[cv_draw(ctx, c) for c in chunks(rep, per)]
                          for rep in chunks(s['sh'], 3 * per)]
         elif r == 'random':
@@ -93,7 +131,7 @@ def expected_exception(case):
     if r in ('bcv', 'random') and case['use_correction'] and case['n_cv'] <= 1:
         return 'Warning'
     if r == 'dual' and case['use_correction'] and case['n_cv'] <= 1 \
-            and not (case['kr'] == 1 and case['kp'] == 1):
+            and not (eff(case)['kr'] == 1 and eff(case)['kp'] == 1):
         return 'Warning'
     return None
 
@@ -119,7 +157,9 @@ def model_request(case, obs):
         req['preds'] = []
     for k in ('boot_nc', 'kr', 'kp', 'n_cv', 'use_correction', 'nr', 'np', 'calc_nc'):
         if k in case:
-            req[k] = case[k]
+            req[k] = case[k]            # `None` = the routine's default, computed by the model
+    req['N'] = case.get('N', 1)
+    req['e'] = lean.fbits(math.e)
     if case['routine'] == 'crossval':
         req['folds'] = folds_spec(case, pre, ctx)
     if case['routine'] == 'testset' and case.get('bt') == 'rdm':
@@ -159,8 +199,22 @@ def cvrows_to_arrays(rows, n_models, n_folds, n_rep):
 
 
 def model_canon(case, a):
+    out = _model_canon(case, a)
+    if isinstance(a, dict) and 'meta' in a:
+        out['meta'] = a['meta']
+    if isinstance(a, dict) and 'cov_defined' in a:
+        out['cov_defined'] = a['cov_defined']
+    for k in ('kr', 'kp', 'nr', 'np'):
+        if isinstance(a, dict) and k in a and k in eff(case) and a[k] != eff(case)[k]:
+            out['options'] = f"model works with {k}={a[k]}, documented default gives {eff(case)[k]}"
+    return out
+
+
+def _model_canon(case, a):
     r = case['routine']
     M = len(case['models'])
+    if isinstance(a, dict) and 'exc' in a:
+        return {'exc': a['exc']}
     if r == 'fixed':
         return {'evals': [[[uf(x) for x in row] for row in a['evals']]], 'nc': [uf(x) for x in a['nc']],
                 'cov': umat(a['cov']), 'dof': a['dof']}
@@ -186,7 +240,7 @@ def model_canon(case, a):
             out['nc'] = [uf(ncs[0][0]), uf(ncs[0][1])] if ncs else [None, None]
         return out
     if r == 'bcv':
-        ev, nc = cvrows_to_arrays(a['rows'], M, case['kr'] * case['kp'], case['n_cv'])
+        ev, nc = cvrows_to_arrays(a['rows'], M, a['kr'] * a['kp'], case['n_cv'])
         return {'evals': ev, 'nc': nc, 'cov': umat(a['cov']), 'dof': a['dof']}
     if r == 'random':
         ev, nc = cvrows_to_arrays(a['rows'], M, 1, case['n_cv'])
@@ -194,7 +248,7 @@ def model_canon(case, a):
         return {'evals': ev, 'nc': nc, 'cov': umat(a['cov']), 'dof': a['dof']}
     if r == 'dual':
         n_cv = a['n_cv']
-        F = case['kr'] * case['kp']
+        F = a['kr'] * a['kp']
         per = [cvrows_to_arrays([row[v] if row else None for row in a['rows']], M, F, n_cv)
                for v in range(3)]
         N = len(a['rows'])
@@ -219,8 +273,18 @@ def model_canon(case, a):
 RTOL, ATOL = 1e-8, 1e-10
 
 
+META_KEYS = ('cv_method', 'eval_shape', 'nc_shape', 'has_variances', 'passed_n_rdm',
+             'passed_n_pattern', 'attr_n_rdm', 'attr_n_pattern')
+
+
 def diff_results(case, impl, other, iname, oname):
     """first difference between two canonical results, or None"""
+    if other.get('options'):
+        return other['options']
+    if 'meta' in impl and 'meta' in other:
+        for k in META_KEYS:
+            if k in impl['meta'] and k in other['meta'] and impl['meta'][k] != other['meta'][k]:
+                return f"Result.{k}: {impl['meta'][k]!r} != {other['meta'][k]!r}  ({iname} != {oname})"
     for k in ('evals', 'nc', 'dof', 'n_rdm', 'n_pattern'):
         if k in impl or k in other:
             d = lean.first_diff(impl.get(k), other.get(k), RTOL, ATOL, k)
